@@ -67,8 +67,8 @@ class PointPixelRegion(PixelRegion):
 
     def __init__(self, center, meta=None, visual=None):
         self.center = center
-        self.meta = meta or RegionMeta()
-        self.visual = visual or RegionVisual()
+        self.meta = RegionMeta() if meta is None else meta
+        self.visual = RegionVisual() if visual is None else visual
 
     @property
     def area(self):
@@ -171,8 +171,8 @@ class PointSkyRegion(SkyRegion):
 
     def __init__(self, center, meta=None, visual=None):
         self.center = center
-        self.meta = meta or RegionMeta()
-        self.visual = visual or RegionVisual()
+        self.meta = RegionMeta() if meta is None else meta
+        self.visual = RegionVisual() if visual is None else visual
 
     def contains(self, skycoord, wcs):  # pylint: disable=unused-argument
         # points never include anything
